@@ -304,6 +304,7 @@ class Check(CheckBase):
                                        'mechanism': _mechanism(label, settings, why), 'witness': {'settings': settings, 'label': label}})
             if len(violations) > 8:
                 break
+        violations.sort(key=lambda x: x['mechanism'] is not None)
         return {'verdict': 'violated' if violations else 'held', 'classes': sorted(classes), 'counters': counters,
                 'violations': violations[:8]}
 
